@@ -130,7 +130,7 @@ func carrierField(v ssa.Value) string {
 	if !ok || idx < 0 || idx >= st.NumFields() {
 		return ""
 	}
-	return nt.Obj().Name() + "." + st.Field(idx).Name()
+	return nt.Obj().Name() + "." + fieldNameAt(nt, idx)
 }
 
 // carriesCaptured: e carries parameter p through the cell a captured parameter lives in.
